@@ -303,3 +303,21 @@ class debug_logging:
         lg.propagate = self._old[1]
         logging.disable(self._old[2])
         return False
+
+
+def run_isolated(module, func, timeout=90):
+    """run harness.props.<module>.<func>() in a child process and return its (JSON) result; an oracle that drives the library
+    on a real event loop can be kept busy or left waiting for ever by a broken library — the child is then killed and that is
+    the failure"""
+    code = ('import json, sys, logging\nsys.path[:0] = [%r, %r]\nlogging.disable(logging.CRITICAL)\n'
+            'from harness.props import %s as m\nprint("RESULT " + json.dumps(m.%s(), default=repr))\n' % (VERIF, REPO, module, func))
+    env = dict(os.environ, PYTHONPATH=REPO, PYTHONHASHSEED='0', PYTHONDONTWRITEBYTECODE='1')
+    try:
+        r = subprocess.run(['/venv/bin/python', '-c', code], capture_output=True, text=True, timeout=timeout, env=env, cwd=VERIF)
+    except subprocess.TimeoutExpired:
+        return [{'what': 'does-not-terminate: %s.%s did not come back within %d s (the library keeps the event loop busy or never '
+                         'completes)' % (module, func, timeout), 'isolated': [module, func]}]
+    for line in r.stdout.splitlines():
+        if line.startswith('RESULT '):
+            return json.loads(line[7:])
+    return [{'what': '%s.%s crashed: %s' % (module, func, (r.stderr or r.stdout)[-400:]), 'isolated': [module, func]}]
